@@ -585,6 +585,45 @@ fn mode_bigsearch(args: &Args) {
             continue;
         }
         let mut r = Rng(case_seed);
+        // a quarter of the cases: pigeon-hole (n+1 pigeons, n holes: unsatisfiable); a quarter: n-queens
+        // without auxiliary variables, enumerated completely (4 / 40 / 92 solutions for n = 6 / 7 / 8)
+        let family = r.below(4);
+        if family == 0 {
+            let n = 3 + r.usize(3);
+            let mut m = Model::default();
+            for _ in 0..=n {
+                m.vars.push(VarDecl { kind: VarKind::Interval, values: (0..n as i32).collect() });
+            }
+            m.cons.push(Cons::AllDiff((0..=n).map(|i| View { scale: 1, offset: 0, var: i }).collect()));
+            let mut setup = Setup::random(&mut r);
+            setup.opts.base_interval = 1 + r.below(3);
+            setup.opts.min_conflicts = r.below(2);
+            let id = format!("{}-{}", args.seed, i);
+            run_case(&id, &format!("scen=bigsearch:pigeons n={} seed={} {}", n, case_seed, setup.describe()), |out| {
+                scen_bigsearch(&m, &setup, usize::MAX, Some(0), out)
+            });
+            continue;
+        }
+        if family == 1 {
+            let n = 6 + r.usize(3);
+            let mut m = Model::default();
+            for _ in 0..n {
+                m.vars.push(VarDecl { kind: VarKind::Interval, values: (0..n as i32).collect() });
+            }
+            let q = |i: usize, off: i32| View { scale: 1, offset: off, var: i };
+            m.cons.push(Cons::AllDiff((0..n).map(|i| q(i, 0)).collect()));
+            m.cons.push(Cons::AllDiff((0..n).map(|i| q(i, i as i32)).collect()));
+            m.cons.push(Cons::AllDiff((0..n).map(|i| q(i, -(i as i32))).collect()));
+            let mut setup = Setup::random(&mut r);
+            setup.opts.base_interval = 1 + r.below(3);
+            setup.opts.min_conflicts = r.below(2);
+            let expected = [4usize, 40, 92][n - 6];
+            let id = format!("{}-{}", args.seed, i);
+            run_case(&id, &format!("scen=bigsearch:queens-all n={} seed={} {}", n, case_seed, setup.describe()), |out| {
+                scen_bigsearch(&m, &setup, usize::MAX, Some(expected), out)
+            });
+            continue;
+        }
         let n = 6 + r.usize(5);
         let aux = 3 + r.usize(8);
         let mut m = Model::default();
@@ -610,7 +649,7 @@ fn mode_bigsearch(args: &Args) {
         let k = 1 + r.usize(5);
         let id = format!("{}-{}", args.seed, i);
         run_case(&id, &format!("scen=bigsearch n={} aux={} k={} seed={} {}", n, aux, k, case_seed, setup.describe()), |out| {
-            scen_bigsearch(&m, &setup, k, out)
+            scen_bigsearch(&m, &setup, k, None, out)
         });
     }
 }
